@@ -17,6 +17,7 @@ mutual
     | .attribute o _ => cleanB o
     | .subscript o i => cleanB o && cleanB i
     | .call f as ks => (cleanB f && cleanBL as) || !isGlue (.call f as ks)
+    | .unaryOp .uSub (.const (.int _)) => true
     | .ifExp c a b => cleanB c && cleanB a && cleanB b
     | .boolOp op [a, b] => cleanB a && cleanB b
     | e => !isGlue e
@@ -56,7 +57,44 @@ mutual
     | .boolOp op [], h => .other _ (by simpa [cleanB] using h)
     | .boolOp op [_], h => .other _ (by simpa [cleanB] using h)
     | .boolOp op (_ :: _ :: _ :: _), h => .other _ (by simpa [cleanB] using h)
-    | .unaryOp .., h => .other _ (by simpa [cleanB] using h)
+    | .unaryOp .uSub (.const (.int n)), _ => .negInt n
+    | .unaryOp .uSub (.const .none), h => .other _ (by simpa [cleanB] using h)
+    | .unaryOp .uSub (.const .true_), h => .other _ (by simpa [cleanB] using h)
+    | .unaryOp .uSub (.const .false_), h => .other _ (by simpa [cleanB] using h)
+    | .unaryOp .uSub (.const .ellipsis), h => .other _ (by simpa [cleanB] using h)
+    | .unaryOp .uSub (.const (.str _)), h => .other _ (by simpa [cleanB] using h)
+    | .unaryOp .uSub (.const (.bytes _)), h => .other _ (by simpa [cleanB] using h)
+    | .unaryOp .uSub (.const (.float _)), h => .other _ (by simpa [cleanB] using h)
+    | .unaryOp .uSub (.const (.complex _)), h => .other _ (by simpa [cleanB] using h)
+    | .unaryOp .invert _, h => .other _ (by simpa [cleanB] using h)
+    | .unaryOp .not_ _, h => .other _ (by simpa [cleanB] using h)
+    | .unaryOp .uAdd _, h => .other _ (by simpa [cleanB] using h)
+    | .unaryOp .uSub (.name _), h => .other _ (by simpa [cleanB] using h)
+    | .unaryOp .uSub (.joinedStr _), h => .other _ (by simpa [cleanB] using h)
+    | .unaryOp .uSub (.formattedValue ..), h => .other _ (by simpa [cleanB] using h)
+    | .unaryOp .uSub (.list _), h => .other _ (by simpa [cleanB] using h)
+    | .unaryOp .uSub (.tuple _), h => .other _ (by simpa [cleanB] using h)
+    | .unaryOp .uSub (.set _), h => .other _ (by simpa [cleanB] using h)
+    | .unaryOp .uSub (.dict _), h => .other _ (by simpa [cleanB] using h)
+    | .unaryOp .uSub (.starred _), h => .other _ (by simpa [cleanB] using h)
+    | .unaryOp .uSub (.attribute ..), h => .other _ (by simpa [cleanB] using h)
+    | .unaryOp .uSub (.subscript ..), h => .other _ (by simpa [cleanB] using h)
+    | .unaryOp .uSub (.slice ..), h => .other _ (by simpa [cleanB] using h)
+    | .unaryOp .uSub (.call ..), h => .other _ (by simpa [cleanB] using h)
+    | .unaryOp .uSub (.binOp ..), h => .other _ (by simpa [cleanB] using h)
+    | .unaryOp .uSub (.boolOp ..), h => .other _ (by simpa [cleanB] using h)
+    | .unaryOp .uSub (.unaryOp ..), h => .other _ (by simpa [cleanB] using h)
+    | .unaryOp .uSub (.compare ..), h => .other _ (by simpa [cleanB] using h)
+    | .unaryOp .uSub (.ifExp ..), h => .other _ (by simpa [cleanB] using h)
+    | .unaryOp .uSub (.lambda ..), h => .other _ (by simpa [cleanB] using h)
+    | .unaryOp .uSub (.namedExpr ..), h => .other _ (by simpa [cleanB] using h)
+    | .unaryOp .uSub (.listComp ..), h => .other _ (by simpa [cleanB] using h)
+    | .unaryOp .uSub (.setComp ..), h => .other _ (by simpa [cleanB] using h)
+    | .unaryOp .uSub (.dictComp ..), h => .other _ (by simpa [cleanB] using h)
+    | .unaryOp .uSub (.generatorExp ..), h => .other _ (by simpa [cleanB] using h)
+    | .unaryOp .uSub (.yield_ _), h => .other _ (by simpa [cleanB] using h)
+    | .unaryOp .uSub (.yieldFrom _), h => .other _ (by simpa [cleanB] using h)
+    | .unaryOp .uSub (.await _), h => .other _ (by simpa [cleanB] using h)
     | .compare .., h => .other _ (by simpa [cleanB] using h)
     | .ifExp c a b, h => by
         simp only [cleanB, Bool.and_eq_true] at h
@@ -90,17 +128,62 @@ def plainIndexB : Expr → Bool
 theorem plainIndexB_sound (i : Expr) (h : plainIndexB i = true) : plainIndex i := by
   cases i <;> simp [plainIndexB] at h <;> simp [plainIndex]
 
-def simpleTB : Expr → Bool
-  | .name _ => true
-  | .attribute o _ => cleanB o
-  | .subscript o i => cleanB o && cleanB i && plainIndexB i
-  | _ => false
+mutual
+  def simpleTB : Expr → Bool
+    | .name _ => true
+    | .attribute o _ => cleanB o
+    | .subscript o i => cleanB o && cleanB i && plainIndexB i
+    | .tuple es => simpleTBL es
+    | .list es => simpleTBL es
+    | _ => false
+  def simpleTBL : List Expr → Bool
+    | [] => true
+    | e :: es => simpleTB e && simpleTBL es
+end
 
-theorem simpleTB_sound (t : Expr) (h : simpleTB t = true) : SimpleT t := by
-  cases t <;> simp only [simpleTB, Bool.and_eq_true, Bool.false_eq_true] at h
-  · exact .name _
-  · exact .attr _ _ (cleanB_sound _ h)
-  · exact .sub _ _ (cleanB_sound _ h.1.1) (cleanB_sound _ h.1.2) (plainIndexB_sound _ h.2)
+mutual
+  theorem simpleTB_sound : ∀ (t : Expr), simpleTB t = true → SimpleT t
+    | .name _, _ => .name _
+    | .attribute o a, h => .attr _ _ (cleanB_sound _ (by simpa [simpleTB] using h))
+    | .subscript o i, h => by
+        simp only [simpleTB, Bool.and_eq_true] at h
+        exact .sub _ _ (cleanB_sound _ h.1.1) (cleanB_sound _ h.1.2) (plainIndexB_sound _ h.2)
+    | .tuple es, h => .tuple es (simpleTBL_sound es (by simpa [simpleTB] using h))
+    | .list es, h => .list es (simpleTBL_sound es (by simpa [simpleTB] using h))
+    | .const _, h => by simp [simpleTB] at h
+    | .joinedStr _, h => by simp [simpleTB] at h
+    | .formattedValue .., h => by simp [simpleTB] at h
+    | .set _, h => by simp [simpleTB] at h
+    | .dict _, h => by simp [simpleTB] at h
+    | .starred _, h => by simp [simpleTB] at h
+    | .slice .., h => by simp [simpleTB] at h
+    | .call .., h => by simp [simpleTB] at h
+    | .binOp .., h => by simp [simpleTB] at h
+    | .boolOp .., h => by simp [simpleTB] at h
+    | .unaryOp .., h => by simp [simpleTB] at h
+    | .compare .., h => by simp [simpleTB] at h
+    | .ifExp .., h => by simp [simpleTB] at h
+    | .lambda .., h => by simp [simpleTB] at h
+    | .namedExpr .., h => by simp [simpleTB] at h
+    | .listComp .., h => by simp [simpleTB] at h
+    | .setComp .., h => by simp [simpleTB] at h
+    | .dictComp .., h => by simp [simpleTB] at h
+    | .generatorExp .., h => by simp [simpleTB] at h
+    | .yield_ _, h => by simp [simpleTB] at h
+    | .yieldFrom _, h => by simp [simpleTB] at h
+    | .await _, h => by simp [simpleTB] at h
+  termination_by structural x => x
+  theorem simpleTBL_sound : ∀ (es : List Expr), simpleTBL es = true → ∀ e ∈ es, SimpleT e
+    | [], _ => by intro e he; cases he
+    | e :: es, h => by
+        simp only [simpleTBL, Bool.and_eq_true] at h
+        intro x hx
+        simp only [List.mem_cons] at hx
+        rcases hx with hx | hx
+        · rw [hx]; exact simpleTB_sound e h.1
+        · exact simpleTBL_sound es h.2 x hx
+  termination_by structural x => x
+end
 
 mutual
   def simpleSB : Stmt → Bool
